@@ -1,5 +1,6 @@
 import PaletteModel.Proto
 import PaletteModel.Color.Transfer
+import PaletteModel.Gen.Matrices
 
 namespace Transfer
 open Proto
@@ -23,4 +24,27 @@ def handle (cfg inp outp : List String) : Verdict :=
           if closeAbs64 m y (Float.ofScientific 5 true 2) 8 then .agree [f ++ "-" ++ dir ++ "-f64"] else .disagree s!"model={showF64 m}"
         | _, _ => .bad "unparsable curve line"
   | _, _, _ => .bad "malformed curve line"
+
+/-- the model curve behind a Rust `TransferFn` type name -/
+def Fn.ofRustName? : String → Option Fn
+  | "Srgb" => some .srgb | "RecOetf" => some .recOetf | "AdobeRgb" => some .adobeRgb | "P3Gamma" => some .p3Gamma
+  | "ProPhotoRgb" => some .prophoto | "LinearFn" => some .linear | _ => none
+
+/-- the transfer function that `impl RgbStandard for <std>` / `impl LumaStandard for <std>` names in the current sources -/
+def transferOfStandard (kind std : String) : Option String :=
+  ((if kind == "luma" then Gen.Mat.lumaStandards else Gen.Mat.rgbStandards).find? (·.1 == std)).map (·.2.2)
+
+/-- `stdcurve <Standard> <rgb|luma> <into|from> | <x> | <y>`: `Rgb<S,T>` / `Luma<S,T>::{into,from}_linear` through the standard's
+    associated `TransferFn`, looked up in the regenerated tables; then exactly as `curve` -/
+def handleStd (cfg inp outp : List String) : Verdict :=
+  match cfg with
+  | [std, kind, dir] =>
+    match (transferOfStandard kind std).bind Fn.ofRustName? with
+    | none => .bad s!"no transfer function known for {kind} standard {std}"
+    | some fn =>
+      let f := match fn with | .srgb => "srgb" | .recOetf => "rec" | .adobeRgb => "adobe" | .p3Gamma => "p3" | .prophoto => "prophoto" | .gamma22 => "gamma22" | .linear => "linear"
+      match handle [f, dir] inp outp with
+      | .agree tags => .agree (tags.map fun t => kind ++ ":" ++ std ++ ":" ++ t)
+      | v => v
+  | _ => .bad "malformed stdcurve line"
 end Transfer
